@@ -32,6 +32,7 @@ Act == \/ IsEvent("Add") /\ Add(E.a, E.b)
        \/ IsEvent("SvcReg") /\ SvcReg(E.a, What(E.b), Item(E.b))
        \/ IsEvent("SvcDisconnect") /\ SvcDisconnect(E.a)
        \/ IsEvent("SvcLeaveTogether") /\ SvcLeaveTogether
+       \/ IsEvent("Restart") /\ Restart(E.b = "busy")
 
 Owned(f) == {x \in Items : f[x] # None}
 Bound == /\ obs'.run = run' /\ obs'.dupl = dupl' /\ obs'.db = db' /\ obs'.adv = adv' /\ obs'.port = port'
@@ -51,6 +52,8 @@ MonOwnerScopedCleanup ==   \* registered = registered by connections that are st
     /\ obs.agents = Owned(sAgent) /\ obs.lsts = Owned(sLst) /\ obs.exc2 = Owned(sExc2)
     /\ obs.eps = {x \o "-ep" : x \in Owned(sExc2)} \cup {n \o "-ep" : n \in {m \in Names : obs.run[m] = "ext"}}
 MonKeepsRunning == obs.done
+(* C10 / C16: a restart loses no listener - not even one that could not bind while the teamserver started *)
+MonListenersSurvive == last.op = "Restart" => obs.db = db /\ {n \in Names : obs.run[n] \in Builtin} = {n \in Names : run[n] \in Builtin}
 (* ---- the service half of C06: nothing is dispatched for a connection that did not present the password ---- *)
 MonSvcAuth == obs.nconn = Cardinality(conn)
 =============================================================================
